@@ -26,6 +26,9 @@ def run(ctx):
                        "reference model of DESIGN 2.4 encodes the statement; unspecified choices are resynchronised, not judged"]
     # "creates the channel and makes the joiner its founder": also when several ask for the same new name at once
     common.run_storm_kinds(ctx, res, "c16:", ["firstjoin", "order", "firstjoin"], 25, 150, jobs=6, jitter=2000)
+    # "as soon as its last member leaves by any means": ping timeout, and the end of a session stuck behind its own output
+    common.run_idleout(ctx, res, sigs=("idle:ghost-channel", "idle:configured-channel-gone", "idle:state:channels", "idle:rank-inherited"))
+    common.run_stuck(ctx, res, sigs=("stuck:ghost-channel", "stuck:contended-ghost-channel", "stuck:claimant-inherited-rank"))
     return res
 
 
